@@ -296,11 +296,26 @@ def solve_forked(args):
         except z3.Z3Exception:
             pass
         sa = z3.Solver(ctx=zc)
-        sa.set('timeout', min(5000, timeout_ms))
+        sa.set('timeout', timeout_ms if o.expect_sat else min(5000, timeout_ms))
         sa.set('smt.arith.nl', False)
         sa.add(*asserts)
-        if sa.check() == z3.unsat:
+        ra = sa.check()
+        if ra == z3.unsat:
             return str(idx), 'unsat', 'z3-5.1.0(api)', (time.time() - t0) * 1000, None, 'linear abstraction'
+        if o.expect_sat:
+            # vacuity guard: a full model if one is found quickly, else satisfiability with products abstracted
+            s = z3.Solver(ctx=zc)
+            s.set('timeout', min(10000, timeout_ms))
+            s.add(*asserts)
+            r = s.check()
+            ms = (time.time() - t0) * 1000
+            if r == z3.sat:
+                return str(idx), 'sat', 'z3-5.1.0(api)', ms, None, ''
+            if r == z3.unsat:
+                return str(idx), 'unsat', 'z3-5.1.0(api)', ms, None, ''
+            if ra == z3.sat:
+                return str(idx), 'sat', 'z3-5.1.0(api)', ms, None, 'satisfiable with nonlinear products abstracted'
+            return str(idx), 'unknown', 'z3-5.1.0(api)', ms, None, s.reason_unknown()
         reason = ''
         # main query; on `unknown` retried with other random seeds (quantifier instantiation is order sensitive)
         for attempt, seed in enumerate((0, 7, 23)):
